@@ -69,7 +69,7 @@ Section AsML.
   Proof. apply repeat_app. Qed.
 
   (* ================= values: shape and flat data ================= *)
-  Definition vsh (x : value) : pt nat := pmap (@List.length K) x.
+  Notation vsh := (pmap (@List.length K)).
   Definition lsum (l : list nat) : nat := fold_right Nat.add 0 l.
 
   Lemma lsum_app l m : lsum (l ++ m) = lsum l + lsum m.
@@ -86,8 +86,8 @@ Section AsML.
   Lemma vflat_length x : List.length (vflat x) = lsum (flatten (vsh x)).
   Proof.
     induction x as [d|k cs IH] using pt_ind'.
-    - rewrite vflat_leaf. unfold vsh, lsum. cbn. lia.
-    - rewrite vflat_node. unfold vsh. cbn [pmap flatten].
+    - rewrite vflat_leaf. unfold lsum. cbn. lia.
+    - rewrite vflat_node. cbn [pmap flatten].
       induction IH as [|c r Hc _ IHr]; [reflexivity|].
       cbn [map List.concat flat_map]. rewrite app_length, Hc, IHr.
       now rewrite lsum_app.
@@ -108,13 +108,13 @@ Section AsML.
   Proof.
     induction a as [u|k cs IH] using pt_ind'; intros [v|k' cs'] c H; try discriminate.
     - cbn in H. destruct (Nat.eqb (List.length u) (List.length v)) eqn:E; [|discriminate].
-      inversion H; subst c. apply Nat.eqb_eq in E. rewrite !vflat_leaf. unfold vsh. cbn [pmap].
+      inversion H; subst c. apply Nat.eqb_eq in E. rewrite !vflat_leaf. cbn [pmap].
       split; [now rewrite E|]. split; [|reflexivity].
       f_equal. rewrite map_length, combine_length. lia.
     - rewrite vadd_node in H. destruct (ckind_eqb k k') eqn:Ek; [|discriminate].
       apply ckind_eqb_eq in Ek; subst k'.
       destruct (omap2 vadd cs cs') as [zs|] eqn:Ez; [|discriminate]. inversion H; subst c. clear H.
-      rewrite !vflat_node. unfold vsh. cbn [pmap]. fold vsh.
+      rewrite !vflat_node. cbn [pmap].
       assert (HL : map vsh cs = map vsh cs' /\ map vsh zs = map vsh cs /\
                    List.concat (map vflat zs) = ladd (List.concat (map vflat cs)) (List.concat (map vflat cs'))).
       { revert cs' zs Ez. induction IH as [|x xs Hx _ IHl]; intros [|y ys] zs Ez; cbn in Ez; try discriminate.
@@ -124,15 +124,15 @@ Section AsML.
           inversion Ez; subst zs. destruct (Hx _ _ E1) as (A1 & A2 & A3). destruct (IHl _ _ E2) as (B1 & B2 & B3).
           cbn [map List.concat]. rewrite A3, B3, A2, B2, A1, B1. repeat split; try reflexivity.
           rewrite ladd_app; [reflexivity|]. apply vsh_length. exact A1. }
-      destruct HL as (H1 & H2 & H3). change (map (pmap (@List.length K))) with (map vsh).
+      destruct HL as (H1 & H2 & H3).
       rewrite H3, H2, H1. repeat split; reflexivity.
   Qed.
 
   Lemma vadd_def a : forall b, vsh a = vsh b -> exists c, vadd a b = Some c.
   Proof.
     induction a as [u|k cs IH] using pt_ind'; intros [v|k' cs'] H; try discriminate.
-    - unfold vsh in H. cbn in H. inversion H as [E]. cbn. rewrite E, Nat.eqb_refl. eauto.
-    - unfold vsh in H. cbn [pmap] in H. inversion H as [[Ek El]]. subst k'.
+    - cbn in H. inversion H as [E]. cbn. rewrite E, Nat.eqb_refl. eauto.
+    - cbn [pmap] in H. inversion H as [[Ek El]]. subst k'.
       rewrite vadd_node, ckind_eqb_refl.
       assert (HL : exists zs, omap2 vadd cs cs' = Some zs).
       { clear H. revert cs' El. induction IH as [|x xs Hx _ IHl]; intros [|y ys] El; cbn in El; try discriminate.
@@ -159,7 +159,7 @@ Section AsML.
   Proof.
     induction a as [u|k cs IH] using pt_ind'; intros [v|k' cs'] Hs Hf; try discriminate.
     - rewrite !vflat_leaf in Hf. now subst.
-    - unfold vsh in Hs. cbn [pmap] in Hs. inversion Hs as [[Ek El]]. subst k'. f_equal.
+    - cbn [pmap] in Hs. inversion Hs as [[Ek El]]. subst k'. f_equal.
       rewrite !vflat_node in Hf.
       assert (Hparts : map vflat cs = map vflat cs').
       { apply concat_inj_len; [|exact Hf]. rewrite !map_map.
@@ -171,7 +171,7 @@ Section AsML.
 
   Lemma vsh_vscale a x : vsh (vscale a x) = vsh x.
   Proof.
-    unfold vsh, Denote.vscale. induction x as [d|k cs IH] using pt_ind'; cbn.
+    unfold Denote.vscale. induction x as [d|k cs IH] using pt_ind'; cbn.
     - now rewrite map_length.
     - f_equal. rewrite map_map. induction IH as [|c r Hc _ IHr]; cbn; [reflexivity|]. now rewrite Hc, IHr.
   Qed.
@@ -179,5 +179,534 @@ Section AsML.
   Proof.
     unfold AsMatrix.vflat, Denote.vscale. rewrite flatten_pmap.
     generalize (flatten x) as l. induction l as [|d l IH]; cbn; [reflexivity|]. now rewrite map_app, IH.
+  Qed.
+
+  (* ---------- lists of values ---------- *)
+  Lemma omap2_vadd_spec xs : forall ys zs, omap2 vadd xs ys = Some zs ->
+    map vsh xs = map vsh ys /\ map vsh zs = map vsh xs /\
+    List.concat (map vflat zs) = ladd (List.concat (map vflat xs)) (List.concat (map vflat ys)).
+  Proof.
+    induction xs as [|x xs IH]; intros [|y ys] zs H; cbn in H; try discriminate.
+    - inversion H; subst. repeat split; reflexivity.
+    - destruct (vadd x y) as [z|] eqn:E1; [|discriminate].
+      destruct (omap2 vadd xs ys) as [zs'|] eqn:E2; [|discriminate]. inversion H; subst zs.
+      destruct (vadd_spec _ _ _ E1) as (A1 & A2 & A3). destruct (IH _ _ E2) as (B1 & B2 & B3).
+      cbn [map List.concat]. rewrite A3, B3, A2, B2, A1, B1. repeat split; try reflexivity.
+      rewrite ladd_app; [reflexivity|]. apply vsh_length. exact A1.
+  Qed.
+  Lemma omap2_vadd_def xs : forall ys, map vsh xs = map vsh ys -> exists zs, omap2 vadd xs ys = Some zs.
+  Proof.
+    induction xs as [|x xs IH]; intros [|y ys] H; cbn in H; try discriminate.
+    - exists []. reflexivity.
+    - inversion H as [[E1 E2]]. destruct (vadd_def x y E1) as (z & Hz). destruct (IH ys E2) as (zs & Hzs).
+      exists (z :: zs). cbn. now rewrite Hz, Hzs.
+  Qed.
+  Lemma list_sh_flat_inj xs : forall ys, map vsh xs = map vsh ys ->
+    List.concat (map vflat xs) = List.concat (map vflat ys) -> xs = ys.
+  Proof.
+    intros ys Hs Hf.
+    assert (Hparts : map vflat xs = map vflat ys).
+    { apply concat_inj_len; [|exact Hf]. rewrite !map_map.
+      clear - Hs. revert ys Hs. induction xs as [|x xs IHx]; intros [|y ys] El; cbn in El; try discriminate; [reflexivity|].
+      inversion El as [[E1 E2]]. cbn. f_equal; [now apply vsh_length|now apply IHx]. }
+    clear Hf. revert ys Hs Hparts. induction xs as [|x xs IHx]; intros [|y ys] El Hp; cbn in El, Hp; try discriminate; [reflexivity|].
+    inversion El as [[E1 E2]]. inversion Hp as [[P1 P2]]. f_equal; [now apply vsh_flat_inj|now apply IHx].
+  Qed.
+
+  (* ---------- splitting along / rebuilding a container ---------- *)
+  Lemma split_flat td : forall (x : value) xs, split_prefix td x = Some xs -> vflat x = List.concat (map vflat xs).
+  Proof.
+    induction td as [u|k cs IH] using pt_ind'; intros x xs H.
+    - cbn in H. inversion H; subst. cbn. now rewrite app_nil_r.
+    - cbn [split_prefix] in H. destruct x as [a|k' xs0]; [discriminate|].
+      destruct (ckind_eqb k k'); [|discriminate]. rewrite vflat_node.
+      revert xs0 xs H. induction IH as [|c cs' Hc _ IHl]; intros xs0 xs H.
+      + destruct xs0; [|discriminate]. cbn in H. inversion H; reflexivity.
+      + destruct xs0 as [|x0 xs1]; [discriminate|]. cbn [split_list] in H.
+        destruct (split_prefix c x0) as [a|] eqn:Ea; [|discriminate].
+        destruct (split_list (@split_prefix (list K)) cs' xs1) as [b|] eqn:Eb; [|discriminate].
+        inversion H; subst xs. cbn [map List.concat]. rewrite map_app, concat_app.
+        now rewrite (Hc _ _ Ea), (IHl _ _ Eb).
+  Qed.
+  Lemma split_vsh td (x : value) : split_prefix td (vsh x) = option_map (map vsh) (split_prefix td x).
+  Proof. apply split_prefix_pmap. Qed.
+  Lemma build_vsh (d : value) td ys : vsh (build d td ys) = build (vsh d) td (map vsh ys).
+  Proof. now rewrite build_pmap. Qed.
+  Lemma build_flat (d : value) td ys : List.length ys = nleaves td ->
+    vflat (build d td ys) = List.concat (map vflat ys).
+  Proof. intros H. apply (split_flat td). now apply split_build. Qed.
+
+  Lemma split_vadd td x y z xs ys : vadd x y = Some z ->
+    split_prefix td x = Some xs -> split_prefix td y = Some ys ->
+    exists zs, split_prefix td z = Some zs /\ omap2 vadd xs ys = Some zs.
+  Proof.
+    intros Hz Hx Hy. destruct (vadd_spec _ _ _ Hz) as (S1 & S2 & S3).
+    pose proof (split_vsh td x) as Px. pose proof (split_vsh td y) as Py. pose proof (split_vsh td z) as Pz.
+    rewrite Hx in Px. rewrite Hy in Py. cbn in Px, Py.
+    rewrite S2, Px in Pz. destruct (split_prefix td z) as [zs|] eqn:Ez; [|discriminate].
+    cbn in Pz. inversion Pz as [Hzs]. rewrite S1, Py in Px. inversion Px as [Hxy].
+    destruct (omap2_vadd_def xs ys (eq_sym Hxy)) as (zs' & Hzs').
+    destruct (omap2_vadd_spec _ _ _ Hzs') as (T1 & T2 & T3).
+    exists zs. split; [reflexivity|]. rewrite Hzs'. f_equal.
+    apply list_sh_flat_inj; [congruence|].
+    rewrite T3, <- (split_flat td _ _ Hx), <- (split_flat td _ _ Hy), <- (split_flat td _ _ Ez). now symmetry.
+  Qed.
+
+  Lemma build_vadd td (dx dy dz : value) xs ys zs : omap2 vadd xs ys = Some zs ->
+    List.length xs = nleaves td ->
+    vadd (build dx td xs) (build dy td ys) = Some (build dz td zs).
+  Proof.
+    intros H Hlen. destruct (omap2_vadd_spec _ _ _ H) as (T1 & T2 & T3).
+    assert (Ly : List.length ys = nleaves td).
+    { rewrite <- Hlen. transitivity (List.length (map vsh ys)); [symmetry; apply map_length|]. rewrite <- T1. apply map_length. }
+    assert (Lz : List.length zs = nleaves td).
+    { rewrite <- Hlen. transitivity (List.length (map vsh zs)); [symmetry; apply map_length|]. rewrite T2. apply map_length. }
+    assert (Sx : vsh (build dx td xs) = build (vsh dz) td (map vsh xs)).
+    { rewrite build_vsh. apply build_dflt_irrelevant. rewrite map_length. lia. }
+    assert (Sy : vsh (build dy td ys) = build (vsh dz) td (map vsh xs)).
+    { rewrite build_vsh, <- T1. apply build_dflt_irrelevant. rewrite map_length. lia. }
+    destruct (vadd_def (build dx td xs) (build dy td ys)) as (c & Hc); [congruence|].
+    rewrite Hc. f_equal. destruct (vadd_spec _ _ _ Hc) as (U1 & U2 & U3).
+    apply vsh_flat_inj.
+    - rewrite U2, Sx, build_vsh, T2. reflexivity.
+    - rewrite U3, !build_flat by assumption. now symmetry.
+  Qed.
+
+  (* ---------- functools.reduce(add, ...) ---------- *)
+  Notation fstep := (fun (acc : option value) (z : value) => obind acc (fun a => vadd a z)).
+  Lemma fold_none' l : fold_left fstep l None = None.
+  Proof. induction l; cbn; auto. Qed.
+  Lemma fold_acc_spec r : forall y Y, fold_left fstep r (Some y) = Some Y ->
+    vsh Y = vsh y /\ Forall (fun z => vsh z = vsh y) r /\
+    vflat Y = fold_left ladd (map vflat r) (vflat y).
+  Proof.
+    induction r as [|z r IH]; intros y Y H; cbn in H.
+    - inversion H; subst. repeat split. constructor.
+    - destruct (vadd y z) as [yz|] eqn:E; [|rewrite fold_none' in H; discriminate].
+      destruct (vadd_spec _ _ _ E) as (S1 & S2 & S3). destruct (IH _ _ H) as (A & B & C).
+      split; [congruence|]. split.
+      + constructor; [congruence|]. eapply Forall_impl; [|exact B]. cbn. intros; congruence.
+      + cbn [map fold_left]. now rewrite <- S3.
+  Qed.
+  Lemma fold_acc_def r : forall y, Forall (fun z => vsh z = vsh y) r -> exists Y, fold_left fstep r (Some y) = Some Y.
+  Proof.
+    induction r as [|z r IH]; intros y H; cbn.
+    - eauto.
+    - inversion H as [|? ? Hz Hr]; subst. destruct (vadd_def y z (eq_sym Hz)) as (yz & E). rewrite E.
+      destruct (vadd_spec _ _ _ E) as (S1 & S2 & S3). apply IH. eapply Forall_impl; [|exact Hr]. cbn. intros; congruence.
+  Qed.
+  Lemma ladd_interchange a : forall b u v, ladd (ladd a b) (ladd u v) = ladd (ladd a u) (ladd b v).
+  Proof.
+    induction a as [|x a IH]; intros [|y b] [|p u] [|q v]; try reflexivity.
+    rewrite !ladd_cons. f_equal; [ring|apply IH].
+  Qed.
+  Lemma fold_interchange rx : forall ry rz a b, omap2 vadd rx ry = Some rz ->
+    fold_left ladd (map vflat rz) (ladd a b) =
+    ladd (fold_left ladd (map vflat rx) a) (fold_left ladd (map vflat ry) b).
+  Proof.
+    induction rx as [|x rx IH]; intros [|y ry] rz a b H; cbn in H; try discriminate.
+    - inversion H; subst. reflexivity.
+    - destruct (vadd x y) as [z|] eqn:E1; [|discriminate].
+      destruct (omap2 vadd rx ry) as [rz'|] eqn:E2; [|discriminate]. inversion H; subst rz.
+      destruct (vadd_spec _ _ _ E1) as (_ & _ & S3). cbn [map fold_left]. rewrite S3, ladd_interchange.
+      now apply IH.
+  Qed.
+  Lemma vsum_pointwise xs ys zs X Y : omap2 vadd xs ys = Some zs -> vsum xs = Some X -> vsum ys = Some Y ->
+    exists Z, vadd X Y = Some Z /\ vsum zs = Some Z.
+  Proof.
+    intros H HX HY. destruct xs as [|x rx]; [discriminate|]. destruct ys as [|y ry]; [discriminate|].
+    cbn in H. destruct (vadd x y) as [z|] eqn:E1; [|discriminate].
+    destruct (omap2 vadd rx ry) as [rz|] eqn:E2; [|discriminate]. inversion H; subst zs. clear H.
+    cbn [Denote.vsum] in *.
+    destruct (fold_acc_spec _ _ _ HX) as (X1 & X2 & X3). destruct (fold_acc_spec _ _ _ HY) as (Y1 & Y2 & Y3).
+    destruct (vadd_spec _ _ _ E1) as (S1 & S2 & S3).
+    destruct (omap2_vadd_spec _ _ _ E2) as (T1 & T2 & _).
+    assert (HZ : Forall (fun w => vsh w = vsh z) rz).
+    { apply Forall_forall. intros w Hw. apply (in_map vsh) in Hw. rewrite T2 in Hw.
+      apply in_map_iff in Hw as (w' & Hw' & Hin). rewrite <- Hw', S2.
+      rewrite Forall_forall in X2. now apply X2. }
+    destruct (fold_acc_def rz z HZ) as (Z0 & HZ0). destruct (fold_acc_spec _ _ _ HZ0) as (Z1 & _ & Z3).
+    destruct (vadd_def X Y) as (Z & HZa); [congruence|].
+    destruct (vadd_spec _ _ _ HZa) as (W1 & W2 & W3).
+    exists Z. split; [exact HZa|]. rewrite HZ0. f_equal. apply vsh_flat_inj; [congruence|].
+    rewrite Z3, W3, X3, Y3, S3. now apply fold_interchange.
+  Qed.
+
+  (* ================= linearity of every operator ================= *)
+  Variable leafsem : op -> value -> option value.
+  Notation denote := (denote kadd kmul leafsem).
+  Notation chain := (chain kadd kmul leafsem).
+  Notation denote_list := (denote_list kadd kmul leafsem).
+  Notation leaflike := (leaflike K).
+
+  (* what C04 needs to know about leaf operators (primitives, opaque user operators, lazy wrappers):
+     they are linear maps between their declared structures *)
+  Record lin_facts : Prop := {
+    la_hom : forall e k x, leaflike e = true ->
+      leafsem e (vscale k x) = option_map (vscale k) (leafsem e x);
+    la_add : forall e x y z x' y', leaflike e = true -> vadd x y = Some z ->
+      leafsem e x = Some x' -> leafsem e y = Some y' ->
+      exists z', vadd x' y' = Some z' /\ leafsem e z = Some z'
+  }.
+  Hypothesis LA : lin_facts.
+
+  Lemma denote_hom' : forall e k x, denote e (vscale k x) = option_map (vscale k) (denote e x).
+  Proof.
+    induction e as [i c si so p|i w e IH|i s|i k' s|i l IH|i l IH|i b td l IH] using op_ind'; intros k x.
+    - apply (la_hom LA). reflexivity.
+    - apply (la_hom LA). reflexivity.
+    - reflexivity.
+    - cbn [Denote.denote option_map]. f_equal. rewrite !(vscale_vscale Kth). f_equal. ring.
+    - rewrite !denote_comp. induction IH as [|e r He _ IHr]; [reflexivity|].
+      rewrite !chain_cons, IHr. destruct (chain r x) as [z|]; cbn; [apply He|reflexivity].
+    - rewrite !denote_add. rewrite (omapl_hom _ _ _ _ k l x) by (eapply Forall_impl; [|exact IH]; auto).
+      destruct (omapl (fun e => denote e x) l) as [ys|]; cbn; [|reflexivity]. apply (vsum_vscale Kth).
+    - rewrite !denote_block. destruct (negb _); [reflexivity|].
+      assert (HF : Forall (fun e => forall x, denote e (vscale k x) = option_map (vscale k) (denote e x)) l)
+        by (eapply Forall_impl; [|exact IH]; auto).
+      destruct b.
+      + rewrite split_vscale. destruct (split_prefix td x) as [xs|]; cbn [option_map obind]; [|reflexivity].
+        unfold DenoteL.denote_list. rewrite (omap2_hom _ _ denote k l xs HF).
+        destruct (omap2 denote l xs) as [ys|]; cbn [option_map obind]; [|reflexivity]. apply (vsum_vscale Kth).
+      + rewrite split_vscale. destruct (split_prefix td x) as [xs|]; cbn [option_map obind]; [|reflexivity].
+        unfold DenoteL.denote_list. rewrite (omap2_hom _ _ denote k l xs HF).
+        destruct (omap2 denote l xs) as [ys|]; cbn [option_map]; [|reflexivity]. f_equal. apply build_vscale.
+      + rewrite (omapl_hom _ _ _ _ k l x HF).
+        destruct (omapl (fun e => denote e x) l) as [ys|]; cbn [option_map]; [|reflexivity]. f_equal. apply build_vscale.
+  Qed.
+
+  Definition additive (e : op) : Prop := forall x y z x' y', vadd x y = Some z ->
+    denote e x = Some x' -> denote e y = Some y' -> exists z', vadd x' y' = Some z' /\ denote e z = Some z'.
+
+  Lemma omapl_additive l : Forall additive l -> forall x y z xs' ys', vadd x y = Some z ->
+    omapl (fun e => denote e x) l = Some xs' -> omapl (fun e => denote e y) l = Some ys' ->
+    exists zs', omap2 vadd xs' ys' = Some zs' /\ omapl (fun e => denote e z) l = Some zs'.
+  Proof.
+    induction 1 as [|e r He _ IH]; intros x y z xs' ys' Hz Hx Hy; cbn in Hx, Hy.
+    - inversion Hx; inversion Hy; subst. exists []. split; reflexivity.
+    - destruct (denote e x) as [x1|] eqn:E1; [|discriminate].
+      destruct (omapl (fun e => denote e x) r) as [xr|] eqn:E2; [|discriminate]. inversion Hx; subst xs'.
+      destruct (denote e y) as [y1|] eqn:E3; [|discriminate].
+      destruct (omapl (fun e => denote e y) r) as [yr|] eqn:E4; [|discriminate]. inversion Hy; subst ys'.
+      destruct (He _ _ _ _ _ Hz E1 E3) as (z1 & A1 & A2). destruct (IH _ _ _ _ _ Hz E2 E4) as (zr & B1 & B2).
+      exists (z1 :: zr). cbn. rewrite A1, B1, A2, B2. split; reflexivity.
+  Qed.
+  Lemma omap2_additive l : Forall additive l -> forall xs ys zs xs' ys', omap2 vadd xs ys = Some zs ->
+    omap2 denote l xs = Some xs' -> omap2 denote l ys = Some ys' ->
+    exists zs', omap2 vadd xs' ys' = Some zs' /\ omap2 denote l zs = Some zs'.
+  Proof.
+    induction 1 as [|e r He _ IH]; intros [|x xs] [|y ys] zs xs' ys' Hz Hx Hy; cbn in Hx, Hy, Hz; try discriminate.
+    - inversion Hx; inversion Hy; inversion Hz; subst. exists []. split; reflexivity.
+    - destruct (vadd x y) as [z|] eqn:Ez; [|discriminate].
+      destruct (omap2 vadd xs ys) as [zr0|] eqn:Ezr; [|discriminate]. inversion Hz; subst zs.
+      destruct (denote e x) as [x1|] eqn:E1; [|discriminate].
+      destruct (omap2 denote r xs) as [xr|] eqn:E2; [|discriminate]. inversion Hx; subst xs'.
+      destruct (denote e y) as [y1|] eqn:E3; [|discriminate].
+      destruct (omap2 denote r ys) as [yr|] eqn:E4; [|discriminate]. inversion Hy; subst ys'.
+      destruct (He _ _ _ _ _ Ez E1 E3) as (z1 & A1 & A2). destruct (IH _ _ _ _ _ Ezr E2 E4) as (zr & B1 & B2).
+      exists (z1 :: zr). cbn. rewrite A1, B1, A2, B2. split; reflexivity.
+  Qed.
+
+  Theorem denote_additive : forall e, additive e.
+  Proof.
+    induction e as [i c si so p|i w e IH|i s|i k s|i l IH|i l IH|i b td l IH] using op_ind';
+      intros x y z x' y' Hz Hx Hy.
+    - cbn [Denote.denote] in *. eapply (la_add LA); eauto.
+    - cbn [Denote.denote] in *. eapply (la_add LA); eauto.
+    - cbn [Denote.denote] in *. inversion Hx; inversion Hy; subst. eauto.
+    - cbn [Denote.denote] in *. inversion Hx; inversion Hy; subst.
+      exists (vscale k z). rewrite (vadd_vscale Kth), Hz. split; reflexivity.
+    - rewrite denote_comp in *. revert x' y' Hx Hy.
+      induction IH as [|e r He _ IHr]; intros x' y' Hx Hy.
+      + cbn in Hx, Hy. inversion Hx; inversion Hy; subst. exists z. split; [exact Hz|reflexivity].
+      + rewrite chain_cons in Hx, Hy |- *.
+        destruct (chain r x) as [x1|] eqn:E1; [|discriminate]. destruct (chain r y) as [y1|] eqn:E2; [|discriminate].
+        destruct (IHr _ _ eq_refl eq_refl) as (z1 & A1 & A2). cbn [obind] in Hx, Hy.
+        destruct (He _ _ _ _ _ A1 Hx Hy) as (z' & B1 & B2). exists z'. split; [exact B1|].
+        rewrite A2. exact B2.
+    - rewrite denote_add in *.
+      destruct (omapl (fun e => denote e x) l) as [xs'|] eqn:E1; [|discriminate].
+      destruct (omapl (fun e => denote e y) l) as [ys'|] eqn:E2; [|discriminate]. cbn [obind] in Hx, Hy.
+      destruct (omapl_additive l IH _ _ _ _ _ Hz E1 E2) as (zs' & A1 & A2).
+      destruct (vsum_pointwise _ _ _ _ _ A1 Hx Hy) as (Z & B1 & B2).
+      exists Z. split; [exact B1|]. rewrite A2. exact B2.
+    - rewrite denote_block in *. destruct (negb _) eqn:En; [discriminate|]. destruct b.
+      + (* block row *)
+        destruct (split_prefix td x) as [xs|] eqn:Sx; [|discriminate].
+        destruct (split_prefix td y) as [ys|] eqn:Sy; [|discriminate]. cbn [obind] in Hx, Hy.
+        destruct (split_vadd td _ _ _ _ _ Hz Sx Sy) as (zs & Sz & Hzs). rewrite Sz. cbn [obind].
+        unfold DenoteL.denote_list in *.
+        destruct (omap2 denote l xs) as [xs'|] eqn:E1; [|discriminate].
+        destruct (omap2 denote l ys) as [ys'|] eqn:E2; [|discriminate]. cbn [obind] in Hx, Hy.
+        destruct (omap2_additive l IH _ _ _ _ _ Hzs E1 E2) as (zs' & A1 & A2).
+        destruct (vsum_pointwise _ _ _ _ _ A1 Hx Hy) as (Z & B1 & B2).
+        exists Z. split; [exact B1|]. rewrite A2. exact B2.
+      + (* block diagonal *)
+        destruct (split_prefix td x) as [xs|] eqn:Sx; [|discriminate].
+        destruct (split_prefix td y) as [ys|] eqn:Sy; [|discriminate]. cbn [obind] in Hx, Hy.
+        destruct (split_vadd td _ _ _ _ _ Hz Sx Sy) as (zs & Sz & Hzs). rewrite Sz. cbn [obind].
+        unfold DenoteL.denote_list in *.
+        destruct (omap2 denote l xs) as [xs'|] eqn:E1; [|discriminate].
+        destruct (omap2 denote l ys) as [ys'|] eqn:E2; [|discriminate]. cbn in Hx, Hy.
+        inversion Hx; inversion Hy; subst x' y'.
+        destruct (omap2_additive l IH _ _ _ _ _ Hzs E1 E2) as (zs' & A1 & A2).
+        exists (build z td zs'). rewrite A2. split; [|reflexivity].
+        apply build_vadd; [exact A1|].
+        destruct (omap2_length _ _ _ _ _ E1) as [L1 L2]. rewrite L1, <- L2. now apply (split_length _ _ Sx).
+      + (* block column *)
+        destruct (omapl (fun e => denote e x) l) as [xs'|] eqn:E1; [|discriminate].
+        destruct (omapl (fun e => denote e y) l) as [ys'|] eqn:E2; [|discriminate]. cbn in Hx, Hy.
+        inversion Hx; inversion Hy; subst x' y'.
+        destruct (omapl_additive l IH _ _ _ _ _ Hz E1 E2) as (zs' & A1 & A2).
+        exists (build z td zs'). rewrite A2. split; [|reflexivity].
+        apply build_vadd; [exact A1|]. rewrite (omapl_length _ _ _ _ E1).
+        apply negb_false_iff, Nat.eqb_eq in En. exact En.
+  Qed.
+
+  (* a x + b y *)
+  Theorem denote_linear_l : forall e a b x y x' y' z, denote e x = Some x' -> denote e y = Some y' ->
+    vadd (vscale a x) (vscale b y) = Some z ->
+    exists z', vadd (vscale a x') (vscale b y') = Some z' /\ denote e z = Some z'.
+  Proof.
+    intros e a b x y x' y' z Hx Hy Hz.
+    apply (denote_additive e _ _ _ _ _ Hz); rewrite denote_hom'; [now rewrite Hx|now rewrite Hy].
+  Qed.
+
+  (* ================= structures of values ================= *)
+  Fixpoint all2 {A B} (f : A -> B -> bool) (l : list A) (l' : list B) : bool :=
+    match l, l' with
+    | [], [] => true
+    | a :: r, b :: r' => f a b && all2 f r r'
+    | _, _ => false
+    end.
+  Lemma vhas_node k cs k' ss : vhas (Node k cs) (Node k' ss) = ckind_eqb k k' && all2 vhas cs ss.
+  Proof.
+    cbn [AsMatrix.vhas]. f_equal. revert ss. induction cs as [|c r IH]; intros [|b r']; cbn; try reflexivity. now rewrite IH.
+  Qed.
+  Notation shp := (pmap leaf_size).
+  Lemma vhas_vsh x : forall s, vhas x s = true <-> vsh x = shp s.
+  Proof.
+    induction x as [d|k cs IH] using pt_ind'; intros [sd|k' ss].
+    - cbn. unfold vleaf_ok. cbn. rewrite Nat.eqb_eq. split; [intros ->; reflexivity|intros H; now inversion H].
+    - cbn. split; discriminate.
+    - cbn. split; discriminate.
+    - rewrite vhas_node, andb_true_iff. cbn [pmap].
+      assert (HL : all2 vhas cs ss = true <-> map vsh cs = map shp ss).
+      { revert ss. induction IH as [|c r Hc _ IHr]; intros [|b r']; cbn; try (split; [discriminate|discriminate]); [tauto|].
+        rewrite andb_true_iff, Hc, IHr. split; [intros [-> ->]; reflexivity|intros H; inversion H; auto]. }
+      rewrite HL. split.
+      + intros [Hk ->]. apply ckind_eqb_eq in Hk. now subst.
+      + intros H. inversion H; subst. split; [apply ckind_eqb_refl|reflexivity].
+  Qed.
+  Lemma shp_size (s : struct) : lsum (flatten (shp s)) = struct_size s.
+  Proof. unfold struct_size, lsum. now rewrite flatten_pmap. Qed.
+  Lemma vhas_length x s : vhas x s = true -> List.length (vflat x) = struct_size s.
+  Proof. intros H. apply vhas_vsh in H. now rewrite vflat_length, H, shp_size. Qed.
+
+  Fixpoint vunflat_list (ss : list struct) (v : list K) : list value * list K :=
+    match ss with
+    | [] => ([], v)
+    | s :: ss' => let '(c, r1) := vunflat s v in let '(cs, r2) := vunflat_list ss' r1 in (c :: cs, r2)
+    end.
+  Lemma vunflat_node k ss v : vunflat (Node k ss) v = let '(cs, r) := vunflat_list ss v in (Node k cs, r).
+  Proof.
+    cbn [AsMatrix.vunflat].
+    match goal with |- (let '(cs, r) := ?A in _) = (let '(cs, r) := ?B in _) => assert (HAB : A = B) end.
+    { revert v. induction ss as [|s ss IH]; intros v; cbn; [reflexivity|]. destruct (vunflat s v) as [c r1]. now rewrite IH. }
+    now rewrite HAB.
+  Qed.
+  Lemma struct_size_node k ss : struct_size (Node k ss) = lsum (map struct_size ss).
+  Proof.
+    unfold struct_size. cbn [flatten]. induction ss as [|s ss IH]; [reflexivity|].
+    cbn [flat_map map]. rewrite map_app. fold (lsum (map leaf_size (flatten s) ++ map leaf_size (flat_map flatten ss))).
+    rewrite lsum_app. unfold lsum in *. cbn. now rewrite IH.
+  Qed.
+  Lemma vunflat_spec s : forall v, struct_size s <= List.length v ->
+    vsh (fst (vunflat s v)) = shp s /\ vflat (fst (vunflat s v)) ++ snd (vunflat s v) = v /\
+    List.length (snd (vunflat s v)) = List.length v - struct_size s.
+  Proof.
+    induction s as [sd|k ss IH] using pt_ind'; intros v H.
+    - unfold struct_size in H. cbn in H. cbn [AsMatrix.vunflat fst snd]. rewrite vflat_leaf, firstn_skipn.
+      unfold struct_size. cbn. rewrite firstn_length, skipn_length. repeat split; try f_equal; lia.
+    - rewrite vunflat_node, struct_size_node in *.
+      assert (HL : forall v, lsum (map struct_size ss) <= List.length v ->
+                map vsh (fst (vunflat_list ss v)) = map shp ss /\
+                List.concat (map vflat (fst (vunflat_list ss v))) ++ snd (vunflat_list ss v) = v /\
+                List.length (snd (vunflat_list ss v)) = List.length v - lsum (map struct_size ss)).
+      { clear v H. induction IH as [|s ss' Hs _ IHl]; intros v H; cbn in H |- *.
+        - repeat split; lia.
+        - destruct (Hs v ltac:(lia)) as (A1 & A2 & A3). destruct (vunflat s v) as [c r1]. cbn [fst snd] in *.
+          destruct (IHl r1 ltac:(lia)) as (B1 & B2 & B3). destruct (vunflat_list ss' r1) as [cs r2]. cbn [fst snd] in *.
+          cbn [map List.concat]. rewrite A1, B1. repeat split; [|lia].
+          rewrite <- app_assoc, B2. exact A2. }
+      destruct (HL v H) as (A1 & A2 & A3). destruct (vunflat_list ss v) as [cs r]. cbn [fst snd] in *.
+      rewrite vflat_node. cbn [pmap]. rewrite A1. auto.
+  Qed.
+  Lemma unflat_vsh s v : List.length v = struct_size s -> vsh (unflat s v) = shp s.
+  Proof. intros H. apply vunflat_spec. lia. Qed.
+  Lemma unflat_vhas s v : List.length v = struct_size s -> vhas (unflat s v) s = true.
+  Proof. intros H. apply vhas_vsh. now apply unflat_vsh. Qed.
+  Lemma unflat_flat s v : List.length v = struct_size s -> vflat (unflat s v) = v.
+  Proof.
+    intros H. destruct (vunflat_spec s v ltac:(lia)) as (_ & A2 & A3). unfold AsMatrix.unflat.
+    destruct (snd (vunflat s v)) as [|? ?]; [now rewrite app_nil_r in A2|cbn in A3; lia].
+  Qed.
+  Lemma flat_unflat x s : vhas x s = true -> unflat s (vflat x) = x.
+  Proof.
+    intros H. pose proof (vhas_length _ _ H) as L. apply vsh_flat_inj.
+    - rewrite unflat_vsh by exact L. symmetry. now apply vhas_vsh.
+    - now apply unflat_flat.
+  Qed.
+  Lemma unflat_add s u v : List.length u = struct_size s -> List.length v = struct_size s ->
+    vadd (unflat s u) (unflat s v) = Some (unflat s (ladd u v)).
+  Proof.
+    intros Hu Hv. destruct (vadd_def (unflat s u) (unflat s v)) as (c & Hc); [now rewrite !unflat_vsh|].
+    rewrite Hc. f_equal. destruct (vadd_spec _ _ _ Hc) as (S1 & S2 & S3).
+    assert (L : List.length (ladd u v) = struct_size s) by (rewrite ladd_length_eq; congruence).
+    apply vsh_flat_inj.
+    - now rewrite S2, !unflat_vsh.
+    - now rewrite S3, !unflat_flat.
+  Qed.
+  Lemma unflat_scale s a v : List.length v = struct_size s -> unflat s (lscale a v) = vscale a (unflat s v).
+  Proof.
+    intros Hv. assert (L : List.length (lscale a v) = struct_size s) by now rewrite map_length.
+    apply vsh_flat_inj.
+    - now rewrite vsh_vscale, !unflat_vsh.
+    - now rewrite vflat_vscale, !unflat_flat.
+  Qed.
+
+  (* ================= basis vectors ================= *)
+  Notation ind t := (fun i => if Nat.eqb i t then k1 else k0).
+  Lemma ind_above t : forall n a, t < a -> map (ind t) (seq a n) = zeros n.
+  Proof.
+    induction n as [|n IH]; intros a H; [reflexivity|]. cbn [seq map].
+    destruct (Nat.eqb a t) eqn:E; [apply Nat.eqb_eq in E; lia|].
+    unfold AsMatrix.zeros. cbn [repeat]. f_equal. apply IH. lia.
+  Qed.
+  Lemma ind_split t : forall n a, a <= t -> t < a + n ->
+    map (ind t) (seq a n) = zeros (t - a) ++ k1 :: zeros (a + n - S t).
+  Proof.
+    induction n as [|n IH]; intros a H1 H2; [lia|]. cbn [seq map].
+    destruct (Nat.eqb a t) eqn:E.
+    - apply Nat.eqb_eq in E. subst a. rewrite Nat.sub_diag. cbn [app AsMatrix.zeros repeat]. f_equal.
+      rewrite ind_above by lia. f_equal. lia.
+    - apply Nat.eqb_neq in E. rewrite IH by lia.
+      replace (t - a) with (S (t - S a)) by lia. unfold AsMatrix.zeros. cbn [repeat app]. repeat f_equal. lia.
+  Qed.
+  Lemma onehot_split n j : j < n -> onehot n j = zeros j ++ k1 :: zeros (n - S j).
+  Proof. intros H. unfold AsMatrix.onehot. rewrite ind_split by lia. now rewrite Nat.sub_0_r. Qed.
+  Lemma onehot_length n j : List.length (onehot n j) = n.
+  Proof. unfold AsMatrix.onehot. now rewrite map_length, seq_length. Qed.
+
+  (* zeros k ++ a :: w  =  a * e_k + (zeros (k+1) ++ w) *)
+  Lemma vector_step k a w : zeros k ++ a :: w =
+    ladd (lscale a (onehot (k + S (List.length w)) k)) (zeros (S k) ++ w).
+  Proof.
+    rewrite onehot_split by lia. replace (k + S (List.length w) - S k) with (List.length w) by lia.
+    rewrite map_app. cbn [map]. rewrite !lscale_zeros.
+    replace (zeros (S k)) with (zeros k ++ [k0]) by (rewrite <- (zeros_app k 1); f_equal; lia).
+    rewrite <- app_assoc. cbn [app].
+    rewrite ladd_app by now rewrite !zeros_length. rewrite ladd_zeros_l by apply zeros_length.
+    f_equal. rewrite ladd_cons. f_equal; [ring|]. apply ladd_zeros_l. reflexivity.
+  Qed.
+
+  (* ================= the generic matrix is the matrix of the application ================= *)
+  Notation matvec_cols := (matvec_cols K k0 kadd kmul).
+  Notation matvec := (matvec K k0 kadd kmul).
+  Notation generic_columns := (generic_columns K k0 k1 kadd kmul leafsem).
+  Notation basis_value := (basis_value K k0 k1).
+  Notation fit := (fit K).
+
+  (* the declared output size is the size of what the operator returns (C05) *)
+  Definition honest (e : op) : Prop := forall x y, vhas x (in_struct e) = true -> denote e x = Some y ->
+    List.length (vflat y) = out_size e.
+
+  Lemma fit_id n col : List.length col = n -> fit n col = Some col.
+  Proof. intros H. unfold AsMatrix.fit. now rewrite H, Nat.eqb_refl. Qed.
+
+  Lemma omapl_nth (A B : Type) (f : A -> option B) (d : A) (d' : B) l : forall ys, omapl f l = Some ys ->
+    List.length ys = List.length l /\ forall j, j < List.length l -> f (nth j l d) = Some (nth j ys d').
+  Proof.
+    induction l as [|a l IH]; intros ys H; cbn in H.
+    - inversion H; subst. split; [reflexivity|]. cbn. lia.
+    - destruct (f a) as [b|] eqn:E; [|discriminate]. destruct (omapl f l) as [ys'|]; [|discriminate].
+      inversion H; subst ys. destruct (IH _ eq_refl) as [L N]. split; [cbn; lia|].
+      intros [|j] Hj; cbn; [exact E|]. apply N. cbn in Hj. lia.
+  Qed.
+
+  Lemma basis_vhas s j : vhas (basis_value s j) s = true.
+  Proof. apply unflat_vhas, onehot_length. Qed.
+
+  Lemma generic_columns_spec e cols : honest e -> generic_columns e = Some cols ->
+    List.length cols = in_size e /\
+    forall j, j < in_size e -> exists y, denote e (basis_value (in_struct e) j) = Some y /\
+      nth j cols [] = vflat y /\ List.length (vflat y) = out_size e.
+  Proof.
+    intros Hh H. unfold AsMatrix.generic_columns in H.
+    destruct (omapl_nth _ _ _ 0 (@nil K) _ _ H) as [L N]. rewrite seq_length in L, N. split; [exact L|].
+    intros j Hj. specialize (N j Hj). rewrite seq_nth in N by exact Hj. cbn [Nat.add] in N.
+    unfold AsMatrix.column_of in N.
+    destruct (denote e (basis_value (in_struct e) j)) as [y|] eqn:E; [|discriminate]. cbn [obind] in N.
+    pose proof (Hh _ _ (basis_vhas _ _) E) as Ly. rewrite (fit_id _ _ Ly) in N. inversion N as [N'].
+    exists y. auto.
+  Qed.
+
+  Lemma skipn_nth_cons (A : Type) (d : A) (l : list A) : forall k, k < List.length l -> skipn k l = nth k l d :: skipn (S k) l.
+  Proof.
+    induction l as [|a l IH]; intros [|k] H; cbn in H; try lia; [reflexivity|]. cbn [skipn nth]. rewrite IH by lia. reflexivity.
+  Qed.
+
+  Section Extend.
+    Variables (e : op) (cols : list (list K)) (m : nat).
+    Let s := in_struct e.
+    Let n := struct_size s.
+    Hypothesis Hn : List.length cols = n.
+    Hypothesis Hcols : forall j, j < n -> exists y, denote e (unflat s (onehot n j)) = Some y /\
+      nth j cols [] = vflat y /\ List.length (vflat y) = m.
+
+    Lemma lin_extend : 0 < n -> forall w k, k + List.length w = n ->
+      exists y, denote e (unflat s (zeros k ++ w)) = Some y /\ vflat y = matvec_cols m (skipn k cols) w.
+    Proof.
+      intros Hpos. induction w as [|a w IH]; intros k Hk; cbn [List.length] in Hk.
+      - rewrite app_nil_r. assert (k = n) by lia. subst k.
+        destruct (Hcols 0 Hpos) as (y0 & E0 & _ & L0).
+        replace (zeros n) with (lscale k0 (onehot n 0)) by (rewrite lscale0; f_equal; apply onehot_length).
+        rewrite unflat_scale by apply onehot_length. rewrite denote_hom', E0. cbn [option_map].
+        exists (vscale k0 y0). split; [reflexivity|]. rewrite vflat_vscale, lscale0, L0.
+        destruct (skipn n cols); reflexivity.
+      - assert (Hkn : k < n) by lia.
+        destruct (Hcols k Hkn) as (yk & Ek & Nk & Lk).
+        destruct (IH (S k) ltac:(lia)) as (y2 & E2 & F2).
+        rewrite vector_step. replace (k + S (List.length w)) with n by lia.
+        assert (L1 : List.length (lscale a (onehot n k)) = struct_size s) by (rewrite map_length; apply onehot_length).
+        assert (L2 : List.length (zeros (S k) ++ w) = struct_size s) by (rewrite app_length, zeros_length; fold n; lia).
+        pose proof (unflat_add s _ _ L1 L2) as Hadd.
+        assert (E1 : denote e (unflat s (lscale a (onehot n k))) = Some (vscale a yk)).
+        { rewrite unflat_scale by apply onehot_length. now rewrite denote_hom', Ek. }
+        destruct (denote_additive e _ _ _ _ _ Hadd E1 E2) as (z' & A1 & A2).
+        exists z'. split; [exact A2|]. destruct (vadd_spec _ _ _ A1) as (_ & _ & S3).
+        rewrite S3, vflat_vscale, F2. rewrite (skipn_nth_cons _ [] cols k) by (rewrite Hn; exact Hkn).
+        rewrite Nk. reflexivity.
+    Qed.
+  End Extend.
+
+  (* apply_is_matvec, for the matrix given by its columns *)
+  Theorem columns_matvec e cols : honest e -> generic_columns e = Some cols ->
+    forall x y, vhas x (in_struct e) = true -> denote e x = Some y ->
+    vflat y = matvec (mkMat (out_size e) cols) (vflat x).
+  Proof.
+    intros Hh Hc x y Hx Hy. destruct (generic_columns_spec e cols Hh Hc) as [L N].
+    unfold AsMatrix.matvec. cbn [m_nr m_cols].
+    destruct (Nat.eq_dec (in_size e) 0) as [Z|NZ].
+    - (* no input element at all: x = 0 * x *)
+      pose proof (vhas_length _ _ Hx) as Lx. fold (in_size e) in Lx. rewrite Z in Lx.
+      destruct (vflat x) eqn:Fx; [|discriminate]. destruct cols; [|cbn in L; lia]. cbn [AsMatrix.matvec_cols].
+      assert (Hx0 : vscale k0 x = x).
+      { apply vsh_flat_inj; [apply vsh_vscale|]. now rewrite vflat_vscale, Fx. }
+      pose proof (denote_hom' e k0 x) as Hh0. rewrite Hx0, Hy in Hh0. cbn in Hh0. inversion Hh0 as [Hy0].
+      rewrite Hy0 at 1. rewrite vflat_vscale, lscale0. f_equal. exact (Hh _ _ Hx Hy).
+    - destruct (lin_extend e cols (out_size e) L N ltac:(unfold in_size in NZ; lia) (vflat x) 0) as (y' & E' & F').
+      { cbn. exact (vhas_length _ _ Hx). }
+      cbn [AsMatrix.zeros repeat app skipn] in E', F'. rewrite (flat_unflat _ _ Hx), Hy in E'. inversion E'; subst y'. exact F'.
   Qed.
 End AsML.
